@@ -2672,7 +2672,38 @@ def known_findings(kf, violations, repo, tier):
     return out
 
 
-EXTRA = [caches_policy]
+def native_listing_suite(repo, tier):
+    """BOUNDED stand-in for the parts that are only assumed symbolically (URL formats of _build_children_url and of the folder
+    lookup, the server's routing, lazy generator interleavings): the replayer's suite -- random and crafted fake Graph libraries,
+    every filter kind, fault injection at every request index -- run natively against the real code on every check."""
+    import json
+    import os
+    import subprocess
+    from pyvc.flow import ground_obligation
+    root = os.path.dirname(os.path.dirname(os.path.abspath(__file__)))
+    oid = "C18/client.py::SharePointRestClient/bounded#native-listing-suite-(fake-graph-libraries,-filters,-fault-injection)"
+    req = {"property": "C18", "obligation": oid, "suite": "quick" if tier == "quick" else "full", "repo": repo}
+    try:
+        p = subprocess.run(["/venv/bin/python", os.path.join(root, "replay", "run.py")], input=json.dumps(req), capture_output=True,
+                           text=True, timeout=1200, cwd=root, env=dict(os.environ, VERIF_REPO=repo))
+        lines = [l for l in p.stdout.splitlines() if l.startswith("{")]
+        res = json.loads(lines[-1]) if lines else {"note": (p.stderr or p.stdout)[-300:]}
+    except Exception as e:  # noqa
+        res = {"note": f"replay harness failed: {e}"}
+    if res.get("reproduced"):
+        o = ground_obligation(oid, False, f"{res.get('target')}: expected {res.get('expected')}; observed {res.get('observed')}"[:600], "client.py",
+                              kind="bounded", backend="native")
+        o["witness"] = res.get("inputs")
+    elif "reproduced" in res:
+        o = ground_obligation(oid, True, str(res.get("note", ""))[:300], "client.py", kind="bounded", backend="native")
+    else:
+        o = ground_obligation(oid, False, str(res.get("note", "no answer from the replayer"))[:300], "client.py", kind="bounded", backend="native",
+                              definite=False)
+    o["bounded"] = True
+    return {"obligations": [o], "functions": []}
+
+
+EXTRA = [caches_policy, native_listing_suite]
 
 TRUSTED = [
     "ISO-SEM: an ISO-8601 timestamp `base.frac tz` denotes `base tz` plus the fraction; 'Z' = +00:00; the first six fraction digits "
@@ -2714,7 +2745,8 @@ ASSUMPTIONS = [
 BOUNDED = [
     {"what": "native replay (replay/C18.py): random libraries of depth <= 3, <= 6 items per folder, page sizes 1..4, 10 fault kinds at "
              "every request index of 5+5 listings, 12 x 10 healthy filtered listings, 432 boundary (timestamp, bound) pairs",
-     "role": "witness search and validation of the assumed models only; no obligation is discharged by it"},
+     "role": "witness search and validation of the assumed models; since round 4 also the BOUNDED obligation `native-listing-suite` "
+             "(12 fault kinds incl. empty bodies, folder timestamps, percent-escape folder names), counted as bounded-ok, never as discharged"},
 ]
 
 # path pruning only: an undecided feasibility query keeps the path (sound); short budgets keep generation fast on
